@@ -151,13 +151,21 @@ class UserAddNode(ActionGroup):
                 UserDeleteEdge(tracks, conflicting_edge, _top_level=False)
             )
 
-        # Determine lineage_id from existing track nodes (if any)
+        # Determine lineage_id from existing track nodes (if any). A lineage id given by
+        # the caller cannot overrule the lineage the node is wired into (which the forced
+        # edge deletions above may just have renumbered), and cannot start a new track
+        # with the id of another lineage
         lineage_key = tracks.features.lineage_key
-        if lineage_key is not None and lineage_key not in attributes:
+        if lineage_key is not None:
+            given = attributes.get(lineage_key)
             if pred is not None:
                 lineage_id = tracks.get_lineage_id(pred)
             elif succ is not None:
                 lineage_id = tracks.get_lineage_id(succ)
+            elif given is not None and not any(
+                tracks.get_lineage_id(n) == given for n in tracks.graph.nodes
+            ):
+                lineage_id = given
             else:
                 # New track with no existing nodes - assign new lineage
                 lineage_id = tracks.get_next_lineage_id()
